@@ -314,6 +314,17 @@ def bounded_native(chk):
                                                                          'seed': found[0]['seed']},
                                           '; '.join(m for _c, m in found[0]['violations'][:2]))
                     break
+    # one long table per vine type: every statement about tau is about ALL rows of the table, however many there are
+    for vt in ('center', 'direct', 'regular'):
+        found = native_search(vt, 4, None, [7 + 100 * (chk.seed or 0)], rows=2400)
+        evals += 1
+        if found:
+            chk.bounded_violation('C16.vine.structure.long_table.bounded', {'vine_type': vt, 'd': 4, 'rows': 2400,
+                                                                            'seed': found[0]['seed']},
+                                  '; '.join(m for _c, m in found[0]['violations'][:2]))
+    chk.bounded.append({'name': 'C16.vine.structure.long_table.bounded', 'clause': 'tau matrix = Kendall tau of all rows; tree '
+                        'predicates', 'bound': 'one table of 2400 rows, d = 4, per vine type', 'evaluations': 3,
+                        'distinct_nontrivial': 3, 'rule': 'one case = (type, table)'})
     chk.bounded.append({'name': 'C16.vine.structure.bounded', 'clause': 'regular-vine predicate for d = %s' % (dims,),
                         'bound': 'real VineCopula.fit on %d random tables per (d, type, truncation), 60 rows, ties in every '
                                  'second table, seed base %d' % (len(seeds), chk.seed or 0),
